@@ -134,7 +134,7 @@ def _typekey_min_idiom(repo, clause):
 
 # ---- D2: type count = table length ----------------------------------------------------------------
 
-def D2_type_counts(repo, clause, kinds=("atom",) + KINDS):
+def D2_type_counts(repo, clause, kinds=("atom",) + KINDS, pair=True):
     obs = []
     nz = Normalizer()
     tables = {"atom": "atom_type_elements"}
@@ -193,7 +193,7 @@ def D2_type_counts(repo, clause, kinds=("atom",) + KINDS):
                   "constructor defaults masses (%s) and labels (%s) per element type, keeping the three atom-type tables equally long" % (ok_m, ok_l),
                   construct="def __init__: atom_type_masses / atom_type_labels defaults", slot="atom-tables-lockstep"))
     # pair_coeffs is an atom-type table too: it must be appended in lockstep (padded) or refused
-    if "pair_coeffs" in seen:
+    if "pair_coeffs" in seen and pair:
         n = seen["pair_coeffs"]
         guarded = bool(norm_guards(et, n)) or any(isinstance(x, ast.Call) and call_name(x) in ("full", "repeat", "pad") for x in ast.walk(n))
         obs.append(Ob("D2", clause, et, n, guarded,
